@@ -42,7 +42,14 @@ def r5_stored_values(run, tree):
     lay.check_bodies(run, tree, aspects=("values",))
 
 
-RULES = [r_shared_c12_r4, r1_r2, r2_leaf, r3, r5_stored_values]
+def r6_reader_state(run, tree):
+    run.rule("C12.R6", "a level-limited load reads the files of THIS call: the AMR reader's file list is reset at every initialisation, so a list left by an earlier "
+             "position selection cannot punch holes into the truncated tree (shared with C15.R2)", "D7 history fold of reader.initialize (on / off / files gone)", "", floor=1)
+    from . import io_folds as iof
+    iof.check_reader_initialize(run, tree)
+
+
+RULES = [r_shared_c12_r4, r1_r2, r2_leaf, r3, r5_stored_values, r6_reader_state]
 
 
 def t_load_space(run, tree):
